@@ -919,6 +919,11 @@ func (lex *Lexer) flushAtEnd() (flushed bool, err error) {
 		// no begin token that would make the parser wait for the
 		// end, so ask for the rest here.
 		return false, ErrMoreInputNeeded
+	case LexerUnquote:
+		// the text ends right after a tilde: a prefix operator
+		// whose operand (or whose '@') has not arrived. The token
+		// is still held back; ask for the rest rather than lose it.
+		return false, ErrMoreInputNeeded
 	case LexerNormal:
 		if lex.buffer.Len() == 0 {
 			return false, nil
@@ -933,6 +938,12 @@ func (lex *Lexer) flushAtEnd() (flushed bool, err error) {
 		return false, err
 	}
 	return len(lex.tokens) > 0, nil
+}
+
+// inLineComment reports whether the text so far ends inside a
+// line comment.
+func (lex *Lexer) inLineComment() bool {
+	return lex.state == LexerCommentLine
 }
 
 func (lex *Lexer) PromoteNextStream() (ok bool) {
